@@ -30,6 +30,9 @@ structure State where
   limClock : Nat := 0
   limPend : Option Nat := none
   ans : Cache Nat := { data := { segs := #[], count := 0 }, maxSize := 1 }
+  fc : Cache (Nat × Nat) := { data := { segs := #[], count := 0 }, maxSize := 1 }
+  fcInit : Nat := 1
+  fcMax : Nat := 1
 
 def optStr (o : Option Nat) : String := match o with | some v => toString v | none => "-"
 
@@ -343,6 +346,37 @@ def stepAns (st : State) (w : List String) : State × String :=
   | ["len"] => (st, toString c.len)
   | _ => (st, "bad-op")
 
+/-- `fail` ops: the real `FailureCache` (record / reset / lookup by question),
+whose retry loops are the production callers of CompareAndSwap / CompareAndDelete.
+Times are integer nanoseconds of the injected clock; `q` is a question id. -/
+def stepFail (st : State) (w : List String) : State × String :=
+  let c := st.fc
+  let hit (e : Nat × Nat) : String := s!"streak={e.1} retry={e.2}"
+  match w with
+  | ["new", size, ini, mx] =>
+    match size.toNat?, ini.toNat?, mx.toNat? with
+    | some s, some i, some m => ({ st with fc := Cache.new s, fcInit := i, fcMax := m }, "ok")
+    | _, _, _ => (st, "bad-op")
+  | ["record", q, now] =>
+    match q.toNat?, now.toNat? with
+    | some q, some now =>
+      let r := c.failRecord H st.fcInit st.fcMax now (q + 1) 4
+      ({ st with fc := r.1 }, s!"{hit r.2} len={r.1.len}")
+    | _, _ => (st, "bad-op")
+  | ["reset", q] =>
+    match q.toNat? with
+    | some q => let r := c.failReset H (q + 1) 4; ({ st with fc := r.1 }, s!"{boolStr r.2} len={r.1.len}")
+    | none => (st, "bad-op")
+  | ["lookup", q, now] =>
+    match q.toNat?, now.toNat? with
+    | some q, some now =>
+      match c.failLookup H now (q + 1) with
+      | some e => (st, hit e)
+      | none => (st, "-")
+    | _, _ => (st, "bad-op")
+  | ["len"] => (st, toString c.len)
+  | _ => (st, "bad-op")
+
 def step (st : State) (w : List String) : State × String :=
   match w with
   | "umap" :: r => stepUmap st r
@@ -350,6 +384,7 @@ def step (st : State) (w : List String) : State × String :=
   | "cache" :: r => stepCache st r
   | "lim" :: r => stepLim st r
   | "ans" :: r => stepAns st r
+  | "fail" :: r => stepFail st r
   | "conc" :: _ => (st, "unmodelled")
   | _ => (st, "bad-op")
 
